@@ -217,6 +217,10 @@ def run_c06(tier):
     t, m = line_traces(Cfg("other salt", ps4=8, ps6=8), sub, via="io")
     traces += t
     meta += m
+    # every bit preserved (image = original): the replacement must still be the canonical spelling
+    t, m = line_traces(Cfg("allbits", ps4=32, ps6=128), EXTRA_LINES + ["a 010.001.002.007 b", "10.1.2.07/24", "2001:0DB8:0000:0000:0000:0000:0000:00AB", "FE80::1 x", "::FFFF:1.2.3.4"])
+    traces += t
+    meta += m
     # one family at a time
     t, m = line_traces(Cfg("TESTSALT", on6=False), r.sample(lines, min(len(lines), 1500 if thorough else 600)) + EXTRA_LINES)
     traces += t
@@ -265,7 +269,8 @@ def text_part_c05(ck, tier):
     lines = []
     for i, c in enumerate(cases):
         q = dotted(c["bits"], zeros=(i % 5 == 4))
-        lines.append([" ip address 10.1.1.1 %s", "%s", "network 172.20.3.0 %s area 0", "mask=%s;", " permit ip any %s 0.0.0.255"][i % 5] % q)
+        lines.append([" ip address 10.1.1.1 %s", "%s", "network 172.20.3.0 %s area 0", "mask=%s;", " permit ip any %s 0.0.0.255",
+                      "ip route %s/0 via 10.9.9.9", "prefix-list x permit %s/32", "%s/8"][i % 8] % q)
     if not thorough:
         lines = r.sample(lines, 900)
     clauses = ["Structure", "Kept", "Nets", "Spelling", "Consistent", "Pins", "Suffix"]
@@ -298,6 +303,32 @@ def text_part_c05(ck, tier):
         t, m = line_traces(cfg, ls, clauses=clauses, via="io")
         traces += t
         meta += m
+    # the command line: --preserve-private-addresses together with explicit --preserve-addresses
+    for vi, (extra_nets, prefixes) in enumerate([(["10.1.0.0/16", "172.20.1.1"], None), (["11.11.0.0/16"], ["20.0.0.0/8", "11.0.0.0/8"]), ([], None)]):
+        base = tlc.subdir("c05cli_%d" % vi)
+        nets = list(D.PRIVATE_NETS) + extra_nets
+        cfg = Cfg("cli-%d" % vi, ps4=8, ps6=8, pins=prefixes, nets=nets)
+        rr = rng("C05", "cli", vi)
+        addrs = [0x0A020304, 0x0A010203, 0x0AFFFFFE, 0xAC100001, 0xAC1F0102, 0xAC140101, 0xC0A80101, 0x0B0B0101, 0x0B0C0101, 0x14000509, 0x14010509] + [rr.getrandbits(32) for _ in range(120)]
+        src = "".join("host %s\n" % D.ipaddress.IPv4Address(a) for a in addrs)
+        os.makedirs(base, exist_ok=True)
+        with open(os.path.join(base, "in.cfg"), "w") as fh:
+            fh.write(src)
+        args = ["-a", "-s", cfg.salt, "-i", os.path.join(base, "in.cfg"), "-o", os.path.join(base, "out.cfg"), "--preserve-private-addresses"]
+        if extra_nets:
+            args += ["--preserve-addresses", ",".join(extra_nets)]
+        if prefixes is not None:
+            args += ["--preserve-prefixes", ",".join(prefixes)]
+        rc, err = run_main(args)
+        ev = [cfg.event(clauses)] + api_events(cfg)
+        texts = [None] * len(ev)
+        if rc != 0 or not os.path.isfile(os.path.join(base, "out.cfg")):
+            ev.append({"ev": "exc", "what": "main rc=%s %s" % (rc, err[-300:])})
+            texts.append(("main", "EXC"))
+        else:
+            pair_lines(ev, texts, "in.cfg", src, open(os.path.join(base, "out.cfg")).read())
+        traces.append(ev)
+        meta.append({"cfg": cfg.describe(), "via": "main", "lines": [t if t else ("", "") for t in texts], "head": 0})
     for ln in lines:
         ck.count(("c05text", ln))
     judge(ck, "C05", traces, meta, "text")
@@ -381,6 +412,11 @@ def file_level(ck, pid, tier):
         ev = [cfg.event(TEXT_CLAUSES)] + ([] if pid == "C17" else api_events(cfg))
         texts = [None] * len(ev)
         hb = ["--preserve-host-bits", str(cfg.ps4)]
+        if pid == "C02" and si % 2 == 1:
+            # the same preservation options on both runs: private addresses are kept in both directions
+            hb += ["--preserve-private-addresses"]
+            cfg.nets = list(D.PRIVATE_NETS)
+            ev[0] = cfg.event(TEXT_CLAUSES)
         mapfile = os.path.join(base, "ip.map")
         if pid == "C17":
             hb += ["-d", mapfile]
@@ -449,6 +485,40 @@ def file_level(ck, pid, tier):
             except Exception as e:
                 ev.append({"ev": "exc", "what": "anonymize_io: %r" % (e,)})
                 texts.append(("io", "EXC"))
+        if pid == "C03" and si == 0:
+            # no salt supplied and a file that cannot be written in the middle of the run: the files before and
+            # after it still belong to ONE run and must share one mapping (whatever salt was generated)
+            try:
+                nb = os.path.join(base, "nosalt")
+                nin, nout = os.path.join(nb, "in"), os.path.join(nb, "out")
+                shared = ["ip address 11.22.33.44 255.255.255.0", "ip address 11.22.33.45 255.255.255.0", "ipv6 address 2001:db8:77::1/64", "neighbor 99.88.77.66 remote-as 1"]
+                good = ["a1.cfg", "c3.cfg", "e5.cfg", "g7.cfg", "z9.cfg"]          # directory order is not sorted: several good
+                tree = {n: "\n".join(shared[i % 2:] + shared[: i % 2]) + "\n" for i, n in enumerate(good)}   # files around two failing ones
+                tree.update({"b2.cfg": "hostname x\n", "f6.cfg": "hostname y\n"})
+                write_tree(nin, tree)
+                for bad in ("b2.cfg", "f6.cfg"):
+                    os.makedirs(os.path.join(nout, bad))                      # output path occupied by a directory
+                import logging
+                lg = logging.getLogger(); old = lg.level; lg.setLevel(logging.CRITICAL)
+                try:
+                    AF.anonymize_files(nin, nout, False, True, salt=None)
+                finally:
+                    lg.setLevel(old)
+                ncfg = Cfg("<generated>", ps4=None, ps6=None)
+                nev = [ncfg.event(["Structure", "Spelling", "Consistent", "Pins", "Suffix"])]
+                ntexts = [None]
+                for name in good:
+                    po = os.path.join(nout, name)
+                    if not os.path.isfile(po):
+                        nev.append({"ev": "exc", "what": "no output for %s" % name})
+                        ntexts.append((name, "missing"))
+                    else:
+                        pair_lines(nev, ntexts, name, open(os.path.join(nin, name)).read(), open(po).read())
+                traces.append(nev)
+                meta.append({"cfg": {"salt": None, "note": "no salt, failing file in the middle"}, "via": "files", "lines": [t if t else ("", "") for t in ntexts], "head": 0})
+            except Exception as e:
+                ev.append({"ev": "exc", "what": "no-salt run: %r" % (e,)})
+                texts.append(("nosalt", "EXC"))
         if pid == "C03":
             # one long-lived pair of anonymizer objects asked to anonymize and to undo the SAME text, interleaved
             try:
@@ -488,7 +558,7 @@ def file_level(ck, pid, tier):
                 pair_lines(ev, texts, name, got.get(name, ""), back[name])
             # and undoing through the library on a fresh FileAnonymizer
             try:
-                ucfg = Cfg(salt, ps4=cfg.ps4, ps6=cfg.ps6, undo=True)
+                ucfg = Cfg(salt, ps4=cfg.ps4, ps6=cfg.ps6, nets=cfg.nets, undo=True)
                 fa = ucfg.make_file_anonymizer()
                 for name in sorted(got):
                     buf = io.StringIO()
@@ -520,8 +590,35 @@ def hostbits_part_c04(ck, tier):
                 b4 = a4 ^ (r.getrandbits(ps4) if ps4 else 0)          # same leading part, other host bits
                 b6 = a6 ^ (r.getrandbits(min(ps6, 128)) if ps6 else 0)
                 lines.append("peer %s %s" % (D.ipaddress.IPv4Address(b4), D.ipaddress.IPv6Address(b6)))
+            t6 = (0x64FF9B << 104) | r.getrandbits(32)                 # 64:ff9b::a.b.c.d spelled with a dotted tail
+            for flip in range(2):
+                v = t6 ^ (r.getrandbits(min(ps6, 32)) if ps6 else 0)
+                lines.append("nat64 64:ff9b::%s" % D.ipaddress.IPv4Address(v & 0xFFFFFFFF))
         t, m = line_traces(cfg, lines, via="io", clauses=["Structure", "Spelling", "Suffix", "Consistent", "Pins"])
         traces += t
         meta += m
         ck.count(("c04hostbits", ps4, ps6))
     judge(ck, "C04", traces, meta, "hostbits-via-FileAnonymizer")
+    # the function-level entry point with preserved networks and NO explicit prefix list: the documented default
+    # prefixes (classes + private blocks) still apply
+    traces, meta = [], []
+    for vi, nets in enumerate([["8.8.8.0/24"], ["100.64.0.0/10", "11.11.11.11"]]):
+        base = tlc.subdir("c04af_%d" % vi)
+        cfg = Cfg("af-%d" % vi, ps4=None, ps6=None, pins=None, nets=nets)
+        rr = rng("C04", "af", vi)
+        addrs = [0x0A010203, 0xAC1D3ADE, 0xC0A80101, 0x7F000001, 0x80000001, 0xC0000001, 0xE0000001, 0x08080808, 0x08080909] + [rr.getrandbits(32) for _ in range(40)]
+        src = "".join("host %s\n" % D.ipaddress.IPv4Address(a) for a in addrs)
+        os.makedirs(base, exist_ok=True)
+        with open(os.path.join(base, "in.cfg"), "w") as fh:
+            fh.write(src)
+        ev = [cfg.event(["Structure", "Spelling", "Kept", "Pins", "Suffix", "Consistent", "Nets"])]
+        texts = [None]
+        try:
+            AF.anonymize_files(os.path.join(base, "in.cfg"), os.path.join(base, "out.cfg"), False, True, salt=cfg.salt, preserve_networks=list(nets))
+            pair_lines(ev, texts, "in.cfg", src, open(os.path.join(base, "out.cfg")).read())
+        except Exception as e:
+            ev.append({"ev": "exc", "what": "anonymize_files: %r" % (e,)})
+            texts.append(("anonymize_files", "EXC"))
+        traces.append(ev)
+        meta.append({"cfg": cfg.describe(), "via": "anonymize_files", "lines": [t if t else ("", "") for t in texts], "head": 0})
+    judge(ck, "C04", traces, meta, "anonymize_files-default-prefixes")
